@@ -261,6 +261,37 @@ add(property='C11', id='C11-clipped-normalisation', status='open', clause='psf_i
                              ap=('EPD', 8.0), fields=(0.0, 3.0)),
                 'N': 24, 'G': 64, 'fld': 0, 'defocus': 0.0, 'clip': True, 'ideal': False, 'mtf': False})
 
+_c12_spec = spec([surf(R=40.0, t=5.0, mat=glass(1.6), stop=True), surf(R=-60.0, t=47.0)], ap=('EPD', 8.0),
+                 fields=(0.0, 3.0, 5.0), wls=(0.48, 0.55, 0.65), prim=1)
+_c12_fin = spec([surf(R=40.0, t=5.0, mat=glass(1.6)), surf(R=-60.0, t=4.0, stop=True), surf(R='inf', t=70.0)], t_obj=150.0,
+                ap=('EPD', 8.0), ftype='object_height', fields=(0.0, 6.0, 10.0), wls=(0.55,))
+
+
+def _c12(analysis, sp=_c12_spec, **kw):
+    c = dict(spec=sp, analysis=analysis, fields='all', wls='all', n=1, h=0.7, px=0.3, py=-0.4)
+    c.update(kw)
+    return c
+
+
+add(property='C12', id='C12-explicit-wavelength-index', status='fixed', commit='3f55be9', clause='rms_vs_field_defined_for_explicit_lists',
+    what='fixed: property=C12 3f55be9 explicit wavelength lists shorter than / not containing the primary wavelength raised '
+         'IndexError (SpotDiagram radii, RmsSpotSizeVsField) or KeyError (RayFan)',
+    reproducer=_c12('rms_field', wls='single', n=0))
+add(property='C12', id='C12-distortion-object-height', status='fixed', commit='55bbf09', clause='distortion_is_departure_from_paraxial_height',
+    what='fixed: property=C12 55bbf09 Distortion / GridDistortion used tan(H * radians(max_field)) as paraxial reference also '
+         'for object-height fields (5 5bd0742: GridDistortion mirrored the predicted x for object heights)',
+    reproducer=_c12('distortion', sp=_c12_fin, n=0))
+add(property='C12', id='C12-grid-distortion-x-mirror', status='fixed', commit='5bd0742', clause='grid_predicted_x',
+    what='fixed: property=C12 5bd0742 GridDistortion mirrored the predicted x also for object-height fields (max distortion ~200 %)',
+    reproducer=_c12('grid_distortion', sp=_c12_fin, n=0))
+add(property='C12', id='C12-grid-distortion-nan', status='fixed', commit='507f6b1', clause='grid_max_distortion',
+    what='fixed: property=C12 507f6b1 GridDistortion max_distortion was NaN whenever num_points is odd (0/0 at the centre point)',
+    reproducer=_c12('grid_distortion', n=0))
+add(property='C12', id='C12-paraxial-trace-nan', status='fixed', commit='0f36894', clause='pupil_aberration_y',
+    what='fixed: property=C12 0f36894 paraxial.trace() computed 0/0 for an infinite object when the entrance pupil is on surface '
+         '1: PupilAberration returned NaN for every lens with the stop on the first surface',
+    reproducer=_c12('pupil_aberration', n=1))
+
 for _e in F:
     if _e['id'] == 'C13-caller-arrays':
         _e['reproducer']['spec']['fields'][1].update(vx=0.2, vy=0.3)
